@@ -9,7 +9,10 @@ sys.path.insert(0, os.path.dirname(os.path.dirname(os.path.abspath(__file__))))
 from genlib import *
 
 LEAN_MODULES = ["MpirProofs.Props.C01_fftx"]
-THEOREMS = []
+THEOREMS = ["Mpir.FftX.fft_radix2_bitrev_dft", "Mpir.FftX.revbin_eq_rev", "Mpir.FftX.ifft_radix2_of_transform", "Mpir.FftX.ifft_fft_radix2",
+            "Mpir.FftX.fft_trunc1_prefix", "Mpir.FftX.fft_trunc_prefix", "Mpir.FftX.ifft_trunc1_recovers", "Mpir.FftX.ifft_trunc_recovers",
+            "Mpir.FftX.fft_trunc_sqrt2_prefix", "Mpir.FftX.fft_full_sqrt2_bitrev_dft", "Mpir.FftX.ifft_trunc_sqrt2_recovers",
+            "Mpir.FftX.convolution_chain", "Mpir.FftX.mul_trunc_sqrt2_val", "Mpir.FftX.mul_fft_main_nonmfa_val"]
 PINS = [("fft/fft_radix2.c", "mpir_fft_radix2"), ("fft/ifft_radix2.c", "mpir_ifft_radix2"),
         ("fft/fft_trunc.c", None), ("fft/ifft_trunc.c", None),
         ("fft/fft_trunc_sqrt2.c", "mpir_fft_trunc_sqrt2"), ("fft/ifft_trunc_sqrt2.c", "mpir_ifft_trunc_sqrt2"),
